@@ -18,6 +18,7 @@ import (
 	"runtime/debug"
 	"sort"
 	"strings"
+	"syscall"
 	"testing"
 	"testing/synctest"
 	"time"
@@ -1806,6 +1807,15 @@ func c09OmitArtifact(env []byte, omit []string) []byte {
 	return b
 }
 
+// c09CPUSeconds: processor time this process has used so far (user + system). Unlike time.Now it is not the bubble's clock.
+func c09CPUSeconds() float64 {
+	var ru syscall.Rusage
+	if err := syscall.Getrusage(syscall.RUSAGE_SELF, &ru); err != nil {
+		return 0
+	}
+	return float64(ru.Utime.Sec+ru.Stime.Sec) + float64(ru.Utime.Usec+ru.Stime.Usec)/1e6
+}
+
 func c09Shape(st *c09Step) string {
 	switch st.Kind {
 	case "good":
@@ -1929,7 +1939,19 @@ func c09ExecResponse(c *c09Ctx, st *c09Step, k c09Knobs) {
 	switch st.Entry {
 	case "ParseXMLResponse":
 		body := c09XMLLayer(elBytes(c09BuildResponse(o, t0)), st)
+		cpu0 := c09CPUSeconds()
 		pan = c09Guard(func() { as, err = spv.ParseXMLResponse(body, ids, spv.AcsURL) })
+		if spent, allowed := c09CPUSeconds()-cpu0, 3+12*float64(len(body))/(1<<20); st.Op == "deep-nesting" && pan == nil {
+			// processor time of the consuming call (not the bubble's clock, which does not move while code runs): it has to stay
+			// within a generous linear bound of the input size - what takes 0.1 s at 70 KB and 18 s at 280 KB takes hours at the
+			// size of a POST body
+			c.res.probe("cpu-time-measured-for-deep-nesting")
+			if spent > allowed {
+				c.res.logf("step %d %s: %d KB of input took more than the linear bound of processor time", c.si, st.Entry, len(body)>>10)
+				c.res.violate(c.si, "hang", "C09/blow-up/cpu/"+c09Func(st.Entry)+"/"+shape, fmt.Sprintf("processor time within 3 s + 12 s/MB of input (%.1f s for %d KB)", allowed, len(body)>>10), "more than that", fmt.Sprintf("nesting depth %d", st.N))
+				return
+			}
+		}
 	case "ParseResponse/post":
 		body := c09XMLLayer(elBytes(c09BuildResponse(o, t0)), st)
 		form := url.Values{"SAMLResponse": {c09B64Layer(c09B64(body), st)}}
@@ -2472,7 +2494,7 @@ func genTotality(g *Rng, tier string) *Plan {
 			case "garbage":
 				st.N = g.Intn(3000)
 			case "deep-nesting":
-				st.N = Pick(g, 10_000, 10_000, 9_999, 10_001, 1_000, 20_000)
+				st.N = Pick(g, 10_000, 10_000, 9_999, 10_001, 1_000, 20_000, 40_000, 40_000)
 			case "huge-attribute":
 				st.N = Pick(g, 1<<16, 1<<20, 1<<20, 5<<20)
 			case "ciphervalue-short":
